@@ -322,7 +322,7 @@ let dispatch (op : string) (a : tok list) : string =
      | Outcome.Err -> "ERR" | Outcome.Panic -> "PANIC")
   | "infieldarr" -> boolS (Utils.coq_CheckBigIntArrayInField q (l 0))
   | "mul" -> pt (BabyJub.coq_Mul (i 0) (p 1))
-  | "mulrecv" | "mulalias" -> let r = BabyJub.coq_Mul (i 0) (p 1) in pt r ^ " " ^ pt r
+  | "mulrecv" | "mulalias" | "mulzerorecv" -> let r = BabyJub.coq_Mul (i 0) (p 1) in pt r ^ " " ^ pt r
   | "pset" | "psetalias" | "psetshared" -> pt (p 0) ^ " " ^ pt (p 0)
   | "mulB8" -> pt (BabyJub.coq_Mul (i 0) BabyJub.coq_B8)
   | "incurveB8" -> boolS (BabyJub.coq_InCurve BabyJub.coq_B8) ^ " " ^ boolS (BabyJub.coq_InSubGroup BabyJub.coq_B8)
@@ -338,6 +338,10 @@ let dispatch (op : string) (a : tok list) : string =
     (match BabyJub.coq_Decompress (b 0) with
      | Outcome.Ok r -> pt r ^ " " ^ pt r
      | _ -> "ERR 7 9")
+  | "decompresszero" ->
+    (match BabyJub.coq_Decompress (b 0) with
+     | Outcome.Ok r -> pt r ^ " " ^ pt r
+     | _ -> "ERR untouched")
   | "fromsigny" -> res_str pt (BabyJub.coq_PointFromSignAndY (zt (List.nth a 0)) (i 1))
   | "sk2int" -> bI (Eddsa.coq_SkToBigInt blake512 (b 0))
   | "public" -> pt (Eddsa.coq_Public blake512 (b 0))
